@@ -166,6 +166,7 @@ def scan_sources():
                 continue
             depth = 0
             txt = open(os.path.join(root, fn)).read()
+            txt = re.sub(r'"(?:[^"]|"")*"', '""', txt)                 # string literals cannot declare anything
             txt = re.sub(r"\(\*.*?\*\)", lambda m: "\n" * m.group(0).count("\n"), txt, flags=re.S)
             for ln, line in enumerate(txt.split("\n"), 1):
                 st = line.strip()
